@@ -202,8 +202,11 @@ func (p *PostingsList) iterator(includeFreq, includeNorm, includeLocs bool,
 		return rv
 	}
 
-	// "general" encoding, check if empty
-	if p.postings == nil {
+	// "general" encoding, check if empty. A list that was recycled for a term
+	// or field that does not exist keeps its (cleared) bitmap but has no
+	// freq/norm or location data to point at - and no segment when the field
+	// is unknown - so there is nothing to set up for it either.
+	if p.postings == nil || p.postings.IsEmpty() {
 		return rv
 	}
 
